@@ -140,6 +140,27 @@ func (e *Env) formatter() *fmtInfo {
 			}
 		}
 	}
+	// ... or used as the key of a constant table of expander functions (table-driven formatter)
+	for _, n := range g.Nodes {
+		if len(n.Dispatch) == 0 || n.DispatchKey == nil {
+			continue
+		}
+		keysOK := true
+		for _, d := range n.Dispatch {
+			if !containsStr(fi.types, d.Key) {
+				keysOK = false
+			}
+		}
+		if !keysOK {
+			continue
+		}
+		s := sy.InCtx(n.Ctx, n.DispatchKey)
+		if s.Op == "field" && pinfo != nil {
+			if f := fieldOfLoad(s.Val); f != nil && typeNamed(fieldOwner(s.Val)) == pinfo {
+				cand[f] += 10
+			}
+		}
+	}
 	for f, c := range cand {
 		if fi.tagField == nil || c > cand[fi.tagField] {
 			fi.tagField = f
@@ -370,6 +391,12 @@ func isPrefixConcat(n *core.Node) bool {
 
 // isEncode: strings.Replace(All)(x, "../", <placeholder>) - the parent-dir encoder.
 func (fi *fmtInfo) isEncode(n *core.Node) bool {
+	if n.IsCallTo("(*strings.Replacer).Replace") && n.Kind != core.KAfter && len(n.Call.Args) == 2 {
+		if pairs := replacerPairs(fi.e.fsym().InCtx(n.Ctx, n.Call.Args[0])); len(pairs) == 2 {
+			return pairs[0].Op == "lit" && pairs[0].Lit == "../" && pairs[1].Op == "lit" && pairs[1].Lit != "" && !strings.Contains(pairs[1].Lit, "/")
+		}
+		return false
+	}
 	if !n.IsCallTo("strings.ReplaceAll", "strings.Replace") || len(n.Call.Args) < 3 {
 		return false
 	}
